@@ -838,12 +838,25 @@ func flatIndexings(root *ssa.Function, fld *types.Var) []an.Event {
 }
 
 func phiCycle(p *ssa.Phi, v ssa.Value) bool {
-	for _, e := range p.Edges {
-		if e == v {
-			return true
+	// v flows back into p, directly or through the merges of the loop body
+	seen := map[*ssa.Phi]bool{}
+	var walk func(q *ssa.Phi) bool
+	walk = func(q *ssa.Phi) bool {
+		if seen[q] {
+			return false
 		}
+		seen[q] = true
+		for _, e := range q.Edges {
+			if e == v {
+				return true
+			}
+			if qq, ok := e.(*ssa.Phi); ok && walk(qq) {
+				return true
+			}
+		}
+		return false
 	}
-	return false
+	return walk(p)
 }
 
 // ---------------------------------------------------------------- C11
